@@ -1,3 +1,4 @@
+import Idn.Descr
 import Idn.Basic
 import Idn.Merge
 import Idn.Devs
@@ -14,7 +15,9 @@ partial def loop (h : IO.FS.Stream) : IO Unit := do
       | _ => none
     let st := generate commits
     let ids := commits.map fun c => (consume st.dict c).getD 999999
-    IO.println s!"{st.size} {ids}"
+    let sd := generateD commits
+    let ds := (List.range st.size).map fun i => ",".intercalate (((descr sd i).mergeSort (· ≤ ·)).map toString)
+    IO.println s!"{st.size} {ids} {";".intercalate ds}"
   | ["mrg", a, b] =>
     -- lists: entries separated by ';', tokens by '|'; "-" = empty list; "_" = empty token
     let parse := fun (s : String) => if s = "-" then [] else
